@@ -636,11 +636,22 @@ def labs_contrast_section(ck, cx):
                 ck.fail("labs.contrast/raises/%s/%s" % (tag, feat), "labs glm fit/contrast raised %s: %s" % (type(e).__name__, e), rep)
                 continue
             fe, fv, fs, te, tv, ts = out["grid"]
+            if ts.size != V or fs.size != V:
+                if 1 in sh and V > 1:
+                    # known finding: fit()/contrast() squeeze s2 (dropping voxel axes of extent 1) but not the effect
+                    ck.fail("labs.contrast/stat-shape/voxel-axis-of-extent-1-squeezed-from-s2-not-from-effect",
+                            "voxel grid %s: t statistic has shape %s (effect %s / variance %s broadcast across voxels)"
+                            % (sh, ts.shape, te.shape, tv.shape), rep)
+                else:
+                    ck.fail("labs.contrast/stat-shape/%s/%s" % (tag, feat), "statistic shapes %s / %s for %d voxels" % (ts.shape, fs.shape, V), rep)
+                continue
             # own-voxel covariance from the object's own fields (same association as the library)
             s2g = np.asarray(G.s2).reshape(-1)
             if model == "spherical":
                 base = np.dot(C, np.inner(G.nvbeta, C))
-                own = base[:, :, None] * s2g[None, None, :]
+                # the code stores the TRANSPOSED q x q matrix (labs_fcon_cov_each_voxel_own_s2); the Kalman nvbeta is symmetric
+                # only up to round-off, so the comparison follows the code's convention
+                own = base.T[:, :, None] * s2g[None, None, :]
                 town = float(C[0] @ G.nvbeta @ C[0]) * s2g
             else:
                 nvf = np.moveaxis(np.moveaxis(np.asarray(G.nvbeta), axis, 0), axis + 1, 1).reshape(p, p, V)
